@@ -124,6 +124,34 @@ def run(ck):
         if rt > 1e-9 * max(1.0, float(numpy.abs(y).max())) * N or numpy.abs(numpy.array(back.axis.data)[:N] - td).max() > 1e-9 * max(1.0, abs(td).max()):
             ck.fail("roundtrip:%s:%s" % ("upper" if upper else "complete", "odd" if N % 2 else "even"),
                     "transforming and inverse-transforming does not return the original values on the original axis", inp, rt)
+        # the pair in the other order: the inverse transform of a function of time (direct sum with e^{-iwt}, Hermitian extension on
+        # half axes) and the transform of the result (a function on a frequency axis) back to time
+        try:
+            G = f.get_inverse_Fourier_transform()
+            Gd = numpy.array(G.data)
+            with energy_units("int"):
+                wg = numpy.array(G.axis.data).copy()
+            refg = numpy.array([numpy.sum(yy * numpy.exp(-1j * w_ * tt)) * dt for w_ in wg])
+            devg = float(numpy.abs(Gd - refg).max()) if len(Gd) == len(refg) else float("inf")
+            scg = max(1.0, float(numpy.abs(refg).max()))
+            if devg > 1e-9 * scg * max(1, N):
+                ck.fail("ift:%s:%s" % ("upper" if upper else "complete", "odd" if N % 2 else "even"),
+                        "inverse Fourier transform of a function of time differs from the direct sum with exp(-i w t) on the returned axis", inp, devg)
+            # the model of this direction is the same index map with the conjugate root
+            if upper and len(Gd) == 2 * N and N <= (20 if ck.quick else 40):
+                z2c = complex(math.cos(PI / N), -math.sin(PI / N))
+                emit("ftu %d %s %s %s" % (N, cfrac(dt), cfrac(z2c), " ".join(cfrac(v) for v in y)), " ".join(cfrac(v) for v in Gd), "ft")
+            elif not upper and len(Gd) == N and N <= 40:
+                zc = complex(math.cos(2 * PI / N), -math.sin(2 * PI / N))
+                emit("ft %d %s %s %s" % (N, cfrac(dt), cfrac(zc), " ".join(cfrac(v) for v in y)), " ".join(cfrac(v) for v in Gd), "ft")
+            gb = numpy.array(G.get_Fourier_transform().data)
+            rt2 = float(numpy.abs(gb[:N] - y).max()) if len(gb) >= N else float("inf")
+            ck.resid("inverse transform then transform (time -> frequency -> time)", rt2)
+            if rt2 > 1e-9 * max(1.0, float(numpy.abs(y).max())) * N:
+                ck.fail("roundtrip:inverse-first:%s:%s" % ("upper" if upper else "complete", "odd" if N % 2 else "even"),
+                        "inverse-transforming and then transforming does not return the original values", inp, rt2)
+        except Exception as e:
+            ck.fail("raises:ift-first", "inverse transform of a function of time raised %r" % (e,), inp)
         # the same inside a units context: neither transform may depend on the units that happen to be current
         try:
             uc = rng.choice(["1/cm", "eV", "THz"])
